@@ -38,6 +38,14 @@ CONFIG = {
   "level_text": "Machine-checked theorems (Lean 4) over the level-by-level recursive-descent parser and the left fold, for any number of grammar levels, formula lengths and operand/operator semantics: the parse tree's in-order traversal is the text and nothing is left over; it is well grouped (every operator to the right of a node binds strictly tighter, every operator to the left at least as tight); well-grouped trees are unique for a given in-order sequence, so the parser computes the documented grouping and an unparenthesised formula evaluates to the value of that grouping; operators of one level (including ^) associate to the left. The level order of the real grammar and the fold direction of term() are re-extracted from the source on every run and proved equal to the specification by `decide`. Tied to the code by comparing real parse trees and evaluations on all short operator sequences.",
   "level_note": "Trusted: Lean kernel + propext/Classical.choice/Quot.sound; the extractor; atoms (literals, parenthesised formulas, prefixed factors) are opaque in the theorems and handled by recursion in the driver.",
  },
+ "C13": {
+  "engine": "syntax",
+  "rule": "literal spellings generated from the grammar: decimal integers of 1-25 digits, floats with 0-7 integer and 1-20 fraction digits (leading-dot included), scientific forms with integer or fractional mantissa, signed or unsigned exponent up to 330, 0x/0o/0b/0d literals up to 70 digits, every kind suffix with boundary values (min, max, max+1, 2^53+1) of every integer kind, rationals including zero denominators and unreduced fractions, all with and without underscores, prefix-minus forms of all of these, complex literals (re±im i/j, imaginary alone, with prefix minus), kind annotations x<kind> := ±digits at the boundary values of every kind, plus the specification's own examples; each literal is interpreted alone and its value compared bit for bit with the model and with the exact denotation; distinct = distinct spellings",
+  "trusted": ["the driver's reader of spellings (parseSpelling) and the hardware instantiation of the two floating-point steps of scientific() (multiply and powf are parameters of the model)"],
+  "assumptions": ["literals are evaluated alone (`x := <literal>`)"],
+  "level_text": "Machine-checked theorems (Lean 4) over a model of the digit code (interpreter/literals.rs) with exact rational arithmetic and an exact correctly-rounded decimal-to-binary64 conversion: digit strings of any length in any base denote sum d_i*b^i (underscores ignored); based literals evaluate exactly that number or are rejected; a zero denominator is always rejected; a rational evaluates to the reduced fraction with positive denominator; a suffixed or annotated literal always lies in its kind's range (clamped, never wrapped); prefix minus negates exactly and is rejected on unsigned suffixed literals; a complex literal has exactly its two parts' values; rounding an integer of any size to p significant bits is exact when it fits and otherwise within half a unit of the last place (ties to even). The decimal-fraction to binary64 conversion of the model (ratToF64, exact rational arithmetic) is an executable definition whose agreement with the implementation's str::parse is checked bit for bit on every run rather than proved nearest. Tied to the code by interpreting generated spellings of every form and comparing bit for bit with the model and with the exact denotation.",
+  "level_note": "Trusted: Lean kernel + propext/Classical.choice/Quot.sound; harness rendering; powf/multiply of scientific() are hardware parameters. Six deviations of the pinned commit are recorded as known findings C13-D1..D6 (`-3+4i` read as -(3+4i), scientific literals with integer mantissa rejected, scientific not correctly rounded, suffixed integers through f64, signed suffixes read as imaginary, underscores in based literals).",
+ },
  "C03": {
   "engine": "core",
   "claimed": True,
